@@ -479,6 +479,55 @@ for _c in CHECKS:
                              "from the model's syntactically are compared at probe points only (differ -> mismatch, agree -> not covered).")
         _c["technique"] += " + decision tables regenerated from the source by a translator and kernel-checked each run"
 
+# More decision tables regenerated from the source on every run (harness/dectables2.py, lean/SA/Model/DecTables2.lean,
+# lean/SA/Theorems/DecTables2.lean): bootstrap dispatch (C11, C12), bootstrap_ci (C13), showbias normalisation (C18), FraudScores (C19).
+_DECTABLES2 = {
+ "C11": ("the table of Scores._sampling_method (6 sampling_method values x smoothing: the value returned, for `dynamic` the size condition "
+         "as an expression over the two class sizes and SINGLE_PASS_SAMPLE_THRESHOLD) and of the dispatch of Scores.bootstrap_sample "
+         "(60 rows: resolved method x smoothing x stratified_sampling in {None, by_label, another value} x ratio given: which branch runs, "
+         "the by_label / single_pass arguments of _sample_indices, whether the smoothing noise is added or rejected (and whether the "
+         "ValueError comes after the draws of _sample_indices), which index list gathers which array, which easy counts and flags the "
+         "sample gets, is_sorted; proportion sampling: population, size expression max(int(ratio * size), 1), replace, int(ratio * easy); "
+         "a callable is applied to self)",
+         "smRow_eq_model, sm_bridge, bsRow_eq_model, bs_bridge, bootstrap_bridge, checkTables2_sound"),
+ "C12": ("the table of GroupScores._sampling_method (6 x 4 stratifications: by_group + dynamic -> replacement, else the size condition) and of "
+         "the dispatch of GroupScores.bootstrap_sample (40 rows: smoothing rejected first, whole-object sampling for None / by_label with the "
+         "group labels gathered by the same index lists and group_names = self.groups, the by_group loop on each group's object without "
+         "label stratification, is_sorted = single_pass only for whole-object sampling, ValueError for proportion / unknown methods / "
+         "unknown stratifications, a callable applied to self)",
+         "gsmRow_eq_model, gsRow_eq_model, gs_bridge, checkTables2_sound"),
+ "C13": ("the table of utils.bootstrap_ci (method in {quantile, bc, bca, other} x theta_hat given): dispatch (quantile / adjusted / "
+         "ValueError), the levels alpha/2 and 1 - alpha/2, the adjusted levels as expressions over (z0, z_alpha, a) (bc 2*z0 + z_alpha, "
+         "bca z0 + (z0 + z_alpha) / (1 - a*(z0 + z_alpha)), applied only where z0 is finite), p0 (comparison theta <= theta_hat, "
+         "denominator #not-NaN), the acceleration (cube / square of the deviations, factor 6, ** 1.5, guarded division), the NaN guard for "
+         "a component without finite replicate",
+         "QExp.eqv_sound, cmpQ_ok_sound, alphaE_eq_model, bcE_eq_model, bcaE_eq_model, level_bridge, p0Row_eq_model, accRow_eq_model, "
+         "checkTables2_sound"),
+ "C18": ("the table of showbias._apply_normalization (by_overall: divisor = metric(score_object); by_min: divisor = min over axis 0 of the "
+         "group metrics; any other mode: ValueError; a zero divisor keeps the entry)",
+         "nmRow_eq_model, nmRow_other_eq_model, checkTables2_sound"),
+ "C19": ("the tables of doc_to_binary_label / binary_to_doc_label (strings and enum members) and of FraudScores.__init__ (per score_class: "
+         "which argument feeds pos / neg / nb_easy_pos / nb_easy_neg of Scores.__init__, score_class, the hard-wired equal_class, "
+         "is_sorted, and the range checks in order: array, `< 0`, `> 1`, genuines before frauds)",
+         "fraudRow_eq_model, fraud_bridge, checkTables2_sound"),
+}
+for _c in CHECKS:
+    if _c["property_id"] in _DECTABLES2:
+        _what, _thms = _DECTABLES2[_c["property_id"]]
+        _c["level_claimed"]["text"] += (
+            " DECISION TABLES regenerated from /repo's source on every run: harness/dectables2.py (the partial evaluator of "
+            "harness/dectables.py extended with inheritance, Enum classes, super(), configuration records, opaque callables, generic "
+            "loop iterations) extracts " + _what + "; a generated Lean file states `checkTables2 translated = <true, [], covered>` and the "
+            "kernel checks it (decide +kernel, cached on the generated text). SA/Theorems/DecTables2.lean proves that a row equal to the "
+            "model's row denotes the model's function for ALL inputs (" + _thms + "). A row that fits the IR and differs from the model's "
+            "is a broken proof obligation naming function, key and both rows; a row the translator cannot evaluate is 'not covered' "
+            "(evidence only).")
+        _c["level_note"] += (" The translator harness/dectables2.py (Python -> table IR) is trusted; expressions are accepted syntactically "
+                             "modulo commutativity of + and * (sound for all inputs, QExp.eqv_sound), otherwise compared at probe points only "
+                             "(differ -> mismatch, agree -> not covered); size conditions likewise; two ValueError rows that differ only in the "
+                             "draws consumed before the error are 'not covered'.")
+        _c["technique"] += " + decision tables regenerated from the source by a translator and kernel-checked each run"
+
 NOT_APPLICABLE = [
  {"property_id": p, "reason": "not yet claimed: model/theorems/correspondence for this property are still being built (see DESIGN.md §5 for the plan); the technique is applicable"}
  for p in ALL if p not in _claimed
